@@ -30,7 +30,7 @@ func registerProps() {
 	reg(&propDef{
 		ID: "C17", Pkg: "internal/transfer", Level: "exploration",
 		Quick: 6000, Thorough: 300000, QuickWall: 5 * time.Minute, ThorWall: 40 * time.Minute,
-		Rule: "same generator as C03; oracle over the sender's wire history (every Write stamped with the scheduler step, decoded with the repo's decoders): one FileBegin per file, no (file,chunk) frame twice except the verified chunk once more, one FileEnd per file after its last chunk write, nothing after FileEnd, every needed chunk written or advertised",
+		Rule: "same generator as C03; oracle over the sender's wire history (every Write stamped with the scheduler step, decoded with the repo's decoders): one FileBegin per file, no (file,chunk) frame twice except the verified chunk once more, one FileEnd per file after its last chunk write, nothing after FileEnd, every needed chunk written or advertised; resumed runs from directly written prior states with the highest marked chunk torn on disk make up a share of the runs, and there the chunk that must fail verification (torn by the harness, named by the receiver as its verification point, advertised as present) must be written by the sender",
 		Real: txReal, Stub: txStub, Assume: txAssume,
 	})
 	reg(&propDef{
@@ -39,7 +39,7 @@ func registerProps() {
 		Rule: "each run = one seeded workload/configuration/schedule (as C03, 1-4 files) executed once fault-free to count its deliveries, then again with 1-2 faults: graceful close(0) by either side, abrupt loss, context cancel of sender or receiver, bit flip in chunk payload or CRC field, source file shrunk/unlinked after the scan, output path obstructed, n-th receiver file operation failing with ENOSPC/EIO/EACCES; connection-level faults are anchored to a delivery index of the fault-free execution (drawn per run; in the thorough tier every 10th spec places its fault at EVERY delivery index 0..D); non-trivial = a fault actually fired; distinct by decision-log hash",
 		Real: txReal, Stub: txStub, Assume: append([]string{"bit flips model a corrupting peer/NIC below the chunk CRC; QUIC itself authenticates packets"}, txAssume...),
 	})
-	resumeRule := "each run = a history: 1-3 interrupted runs (receiver killed at a drawn crash point = file-system or network operation of the receiver process, optionally tearing the operation in flight; sender killed; abrupt loss; close; cancel), each with its own seeded schedule biased to let the 1 s sidecar flusher tick between the steps of the data readers, on 1-4 files of 1-8 chunks with resume enabled; positions are fractions of the crash points counted in a crash-free execution of the same schedule; in the thorough tier every 20th spec kills the receiver at EVERY file-system crash point of one schedule"
+	resumeRule := "each run = a history: 1-3 interrupted runs (receiver killed at a drawn crash point = file-system or network operation of the receiver process, optionally tearing the operation in flight - os.WriteFile counts as two operations, open+truncate and write -; receiver interrupted by a signal there instead: its handler flushes every sidecar and exits while the other goroutines go on; sender killed; abrupt loss; close; cancel; in a quarter of the histories the interrupted runs use another chunk size than the final run, preferably one with the same chunk count), each with its own seeded schedule biased to let the 1 s sidecar flusher tick between the steps of the data readers, on 1-4 files of 1-8 chunks with resume enabled; positions are fractions of the crash points counted in a crash-free execution of the same schedule; in the thorough tier every 20th spec kills the receiver at EVERY file-system crash point of one schedule"
 	reg(&propDef{
 		ID: "C04", Pkg: "internal/transfer", Level: "fault_enumeration",
 		Quick: 2000, Thorough: 80000, QuickWall: 6 * time.Minute, ThorWall: 45 * time.Minute,
@@ -49,13 +49,13 @@ func registerProps() {
 	reg(&propDef{
 		ID: "C05", Pkg: "internal/transfer", Level: "fault_enumeration",
 		Quick: 2500, Thorough: 80000, QuickWall: 6 * time.Minute, ThorWall: 45 * time.Minute,
-		Rule: resumeRule + "; oracle evaluated on every crash image: each sidecar the repo's LoadSidecar accepts and whose identity matches a manifest file marks only chunks whose bytes in the output file equal the source; each sidecar path holds exactly the version installed by the last completed rename/write (atomic replacement)",
+		Rule: resumeRule + "; oracle evaluated on every crash image: each sidecar the repo's LoadSidecar accepts and whose identity matches a manifest file marks only chunks whose bytes in the output file equal the source; each sidecar path holds exactly the version installed by the last completed rename/write, and every version a rename installs over a valid one is itself a complete record by the harness' own reader of the format (atomic replacement)",
 		Real: txReal, Stub: txStub, Assume: append([]string{"crash = kill -9 of one process: its memory is lost, everything its completed system calls wrote survives; a rename is atomic, a write may be torn at any byte"}, txAssume...),
 	})
 	reg(&propDef{
 		ID: "C06", Pkg: "internal/transfer", Level: "exploration",
 		Quick: 2000, Thorough: 80000, QuickWall: 6 * time.Minute, ThorWall: 45 * time.Minute,
-		Rule: resumeRule + "; then 1-2 storage damages applied to the state left behind (sidecar truncated at a drawn length, single bit flipped, garbage, well-formed all-complete sidecar of another size / chunk size / id, stale all-complete sidecar, .tmp leftover, data file deleted or shortened with the sidecar present, highest marked chunk torn), then a healthy resumed run: identical tree or a loud failure, never success with a different tree",
+		Rule: resumeRule + "; then 1-2 storage damages applied to the state left behind (sidecar truncated at a drawn length, single bit flipped, garbage, well-formed all-complete sidecar of another size / chunk size / id, stale all-complete sidecar, .tmp leftover, data file deleted or shortened with the sidecar present, sidecar only at the fallback location of a receiver without root directory, highest marked chunk torn; prior states are also written directly with every bitmap shape; in a sixth of the histories the damage falls between two interrupted runs), then a healthy resumed run: identical tree or a loud failure, never success with a different tree",
 		Real: txReal, Stub: txStub, Assume: txAssume,
 	})
 	reg(&propDef{
@@ -69,7 +69,7 @@ func registerProps() {
 	reg(&propDef{
 		ID: "C15", Pkg: "internal/transfer", Level: "exploration", MemLimitKB: 3 * 1024 * 1024,
 		Quick: 4000, Thorough: 150000, QuickWall: 5 * time.Minute, ThorWall: 30 * time.Minute,
-		Rule:   "each run = a healthy small transfer is recorded in the simulator (all streams, both directions), 1-2 seeded mutations are applied to the transcript (truncation at a drawn byte, byte set to 0/255/+-1, 16/32-bit fields overwritten with 0 or all-ones, duplicated/dropped/inserted ranges, record type bytes replaced at record boundaries, wrong magic, absurd values in manifest-length / frame index / frame length fields) and the result is replayed by a scripted peer against the real receiver (2/3) or the real sender (1/3) with seeded segmentation; the script FINs every stream and optionally closes the connection; non-trivial = a mutation applied and more than 10 scheduling steps, distinct by decision-log hash",
+		Rule:   "each run = a healthy small transfer is recorded in the simulator (all streams, both directions), 1-2 seeded mutations are applied to the transcript (truncation at a drawn byte, byte set to 0/255/+-1, 16/32-bit fields overwritten with 0 or all-ones, duplicated/dropped/inserted ranges, record type bytes replaced at record boundaries, wrong magic, absurd values in manifest-length / frame index / frame length fields, chunk size 0, well-formed but inconsistent FileResumeInfo records, well-formed chunk frames with a valid checksum that do not fit the announced file: data for an empty file, last chunk at full chunk size, short chunk, index beyond the file, the same chunk twice) and the result is replayed by a scripted peer against the real receiver (2/3) or the real sender (1/3) with seeded segmentation; the script FINs every stream and optionally closes the connection; non-trivial = a mutation applied and more than 10 scheduling steps, distinct by decision-log hash",
 		Real:   []string{"internal/transfer decoders, RecvManifestMultiStream, SendManifestMultiStream (instrumented copy of the current working tree)"},
 		Stub:   []string{"peer: byte script derived from a recorded healthy run", "QUIC: SimNet"},
 		Assume: []string{"memory is judged by the Go runtime's TotalAlloc delta of the worker process over the run (limit 64 x bytes received + 48 MiB); a worker process runs one simulation at a time", "mutations are ordinary seeded mutation; the simulator contributes end-of-input semantics, segmentation and hang detection on the fake clock"},
@@ -96,7 +96,7 @@ func registerProps() {
 	reg(&propDef{
 		ID: "C16", Pkg: "cmd/thruserv", Level: "exploration",
 		Quick: 2500, Thorough: 100000, QuickWall: 5 * time.Minute, ThorWall: 30 * time.Minute,
-		Rule: "each run = one server configuration drawn from the grid {12 limit/timeout flags x (default, small, 0)} x TURN off / 1-2 TURN URLs in 8 spellings with a secret and optional credential TTL, peer ids with URL-significant characters, client max_receivers 0/1/4; the real clienthttp.CreateSession, buildWebSocketURL and wsclient.Dial run for a host and a receiver against the real server; the credentials the server pushes are parsed with the client's parseTurnServer and compared with what the configured secret and URL mean; no faults; distinct by decision-log hash",
+		Rule: "each run = one server configuration drawn from the grid {12 limit/timeout flags x (default, small, 0)} x TURN off / 1-2 TURN URLs in 8 spellings with a secret and optional credential TTL, peer ids with URL-significant characters, client max_receivers 0/1/4; the real clienthttp.CreateSession, buildWebSocketURL and wsclient.Dial run for a host and a receiver against the real server; the credentials the server pushes are parsed with the client's parseTurnServer and compared with what the configured secret and URL mean (user, secret, host:port, transport, TLS, server name); after connecting, receiver and host exchange one addressed message each way and no connection may be ended by the server while its client is there; no faults; distinct by decision-log hash",
 		Real: append([]string{"internal/clienthttp.CreateSession, internal/app.buildWebSocketURL, internal/wsclient.Dial/ReadLoop, internal/ice.parseTurnServer (through overlay shims)"}, t3Real...), Stub: t3Stub, Assume: t3Assume,
 	})
 	reg(&propDef{
@@ -114,7 +114,7 @@ func registerProps() {
 	reg(&propDef{
 		ID: "C09", Pkg: "internal/app", Level: "exploration", Unscheduled: true, Env: []string{"GOMAXPROCS=1", "GODEBUG=asyncpreemptoff=1"},
 		Quick: 1200, Thorough: 40000, QuickWall: 6 * time.Minute, ThorWall: 40 * time.Minute,
-		Rule:   "each run = one listener reachable through 1-4 candidate paths (alias addresses with their own up/down latency 1-100 ms - a third of the extra paths get the same round trip as the first, split differently -, optional loss 2-30 % and blackholing), candidate list optionally with a duplicate, a turn:-prefixed alias and unroutable entries; the real Prober.ProbeAndDial and real quic-go/TLS run over SimUDP on the fake clock, followed by the real authenticateTransport on both committed ends; non-trivial = more than one path; distinct by (seed, observed outcome)",
+		Rule:   "each run = one listener reachable through 1-4 candidate paths (alias addresses with their own up/down latency 1-100 ms, one in six 0.3-2.4 s - a third of the extra paths get the same round trip as the first, split differently -, optional loss 2-30 % and blackholing; paths may be offered relay-prefixed), candidate list optionally with a duplicate, a turn:-prefixed alias and unroutable entries; the real Prober.ProbeAndDial and real quic-go/TLS run over SimUDP on the fake clock, followed by the real authenticateTransport on both committed ends; a quarter of the runs are driven by the seeded scheduler over the generated yield points of internal/ice and internal/app (quic-go runs freely between two steps), the others are unscheduled; oracles that need a deadline to be ample (dial must succeed, auth must succeed, losers closed) are judged only on loss-free paths with a round trip of at most 3 s (or at most 200 ms with up to 10 % loss for auth); non-trivial = more than one path; distinct by (seed, observed outcome)",
 		Real:   []string{"internal/ice.Prober.ProbeAndDial", "quic-go v0.58.0, crypto/tls (real, not instrumented)", "internal/transferquic, internal/quictransport configs", "internal/app.authenticateTransport with the real TLS exporter"},
 		Stub:   []string{"UDP: SimUDP (timer-driven delivery on the fake clock; per-path NAT-like source addresses)", "accepting side: transcription of snapshotReceiver.runTransfer's acceptOnce (first accepted connection is primary) - the real function cannot run in the simulator", "ice.NewProber, STUN, TURN: not run (candidate lists are supplied by the harness)"},
 		Assume: []string{"no scheduler is installed in this tier: interleavings come from latencies/loss; replay reproduces the outcome (path choices, auth results), not a decision log", "the receiver's own delayed dial-back (500 ms) is not modelled"},
